@@ -308,6 +308,48 @@ int32_t jls_raw_rd(struct jls_raw_s * self, struct jls_chunk_header_s * hdr, uin
     return 0;
 }
 
+/**
+ * @brief Restore a chunk header whose in-place link update was interrupted.
+ *
+ * item_next is the only header field that changes after a chunk was written:
+ * it goes from 0 to the offset of the successor, together with the CRC.
+ * A writer that stops inside this 32-byte rewrite leaves the first bytes new
+ * and the rest old, which fails the CRC although no information is lost.
+ * Only used on files opened for writing, which for an existing file is the
+ * repair of a file that was not closed.
+ *
+ * @return 1 when the header was restored (in h and in the file), else 0.
+ */
+static int link_update_recover(struct jls_raw_s * self, struct jls_chunk_header_s * h) {
+    struct jls_chunk_header_s unlinked = *h;
+    unlinked.item_next = 0;
+    uint32_t crc_unlinked = jls_crc32c_hdr(&unlinked);
+    uint32_t crc_linked = jls_crc32c_hdr(h);
+    if (h->crc32 == crc_unlinked) {
+        // stopped before the CRC bytes were reached: the link was never valid
+        h->item_next = 0;
+    } else {
+        // stopped inside the CRC (stored little endian): n new bytes, 4 - n old bytes
+        int n = 1;
+        for (; n <= 3; ++n) {
+            uint32_t mask = (1U << (8 * n)) - 1U;
+            if (h->crc32 == ((crc_linked & mask) | (crc_unlinked & ~mask))) {
+                break;
+            }
+        }
+        if (n > 3) {
+            return 0;
+        }
+        h->crc32 = crc_linked;
+    }
+    JLS_LOGW("chunk header at %" PRIi64 ": interrupted link update restored", self->offset);
+    if (jls_bk_fseek(&self->backend, self->offset, SEEK_SET)
+            || jls_bk_fwrite(&self->backend, h, sizeof(*h))) {
+        return 0;
+    }
+    return 1;
+}
+
 int32_t jls_raw_rd_header(struct jls_raw_s * self, struct jls_chunk_header_s * hdr) {
     struct jls_chunk_header_s * h = &self->hdr;
     if (hdr) {
@@ -332,7 +374,7 @@ int32_t jls_raw_rd_header(struct jls_raw_s * self, struct jls_chunk_header_s * h
             return JLS_ERROR_EMPTY;
         }
         uint32_t crc32 = jls_crc32c_hdr(h);
-        if (crc32 != h->crc32) {
+        if ((crc32 != h->crc32) && !(self->write_en && link_update_recover(self, h))) {
             JLS_LOGW("chunk header fpos=%" PRIi64 " crc error: %u != %u",
                      self->backend.fpos, crc32, h->crc32);
             invalidate_current_chunk(self);
